@@ -259,3 +259,108 @@ Section WOTS.
     rewrite a1, a2, a4, b1, b2, b4. apply wotsS_complete; auto. apply wotsChecksum_digit.
   Qed.
 End WOTS.
+
+(* ---------- the checksum digits (FIPS 205 Algorithm 7, lines 3-8 / eq. 5.1-5.4) ---------- *)
+Section CHECKSUM.
+  Variable P : params.
+
+  (* the checksum over N (no wrap) *)
+  Definition csum_spec (msgb : list N) : N :=
+    fold_left (fun c d => c + (N.of_nat (p_w P) - 1 - d)) msgb 0.
+
+  Lemma csum_fold_spec : forall msgb acc,
+    Forall (fun d => d <= N.of_nat (p_w P) - 1) msgb -> (1 <= p_w P)%nat ->
+    acc + N.of_nat (length msgb) * (N.of_nat (p_w P) - 1) < 2 ^ 32 ->
+    fold_left (fun c d => u32 (c + N.of_nat (p_w P) - 1 - d)) msgb acc
+    = fold_left (fun c d => c + (N.of_nat (p_w P) - 1 - d)) msgb acc
+    /\ fold_left (fun c d => c + (N.of_nat (p_w P) - 1 - d)) msgb acc <= acc + N.of_nat (length msgb) * (N.of_nat (p_w P) - 1).
+  Proof.
+    induction msgb as [|d msgb IH]; intros acc Hd Hw Hb.
+    - simpl. split; [reflexivity|lia].
+    - inversion Hd; subst. cbn [fold_left].
+      assert (E : u32 (acc + N.of_nat (p_w P) - 1 - d) = acc + (N.of_nat (p_w P) - 1 - d)).
+      { unfold u32. change 4294967296 with (2 ^ 32). rewrite N.mod_small; [lia|].
+        cbn [length] in Hb. nia. }
+      rewrite E. destruct (IH (acc + (N.of_nat (p_w P) - 1 - d)) H2 Hw) as [A B].
+      + cbn [length] in Hb. nia.
+      + split; [exact A|]. cbn [length]. nia.
+  Qed.
+
+  (* len2 digits are enough for the largest checksum len1*(w-1) *)
+  Lemma len2_enough : (1 <= p_lgw P)%nat ->
+    (p_len1 P * (p_w P - 1) < 2 ^ (p_len2 P * p_lgw P))%nat.
+  Proof.
+    intros Hl. unfold p_len2. set (X := (p_len1 P * (p_w P - 1))%nat).
+    destruct (Nat.eq_dec X 0) as [E|E].
+    - rewrite E. apply Nat.neq_0_lt_0. apply Nat.pow_nonzero. lia.
+    - pose proof (Nat.log2_spec X ltac:(lia)) as [_ Hs].
+      eapply Nat.lt_le_trans; [exact Hs|]. apply Nat.pow_le_mono_r; [lia|].
+      pose proof (Nat.div_mod (Nat.log2 X) (p_lgw P) ltac:(lia)) as D.
+      pose proof (Nat.mod_upper_bound (Nat.log2 X) (p_lgw P) ltac:(lia)) as U. nia.
+  Qed.
+
+  (* ceil(L/8)*8 - L = (8 - L mod 8) mod 8 *)
+  Lemma pad_shift L : (8 * ((L + 7) / 8) - L = (8 - L mod 8) mod 8)%nat /\ (L <= 8 * ((L + 7) / 8))%nat.
+  Proof.
+    pose proof (Nat.div_mod L 8 ltac:(lia)) as D. pose proof (Nat.mod_upper_bound L 8 ltac:(lia)) as U.
+    set (q := (L / 8)%nat) in *. set (r := (L mod 8)%nat) in *.
+    destruct (Nat.eq_dec r 0) as [E|E].
+    - rewrite E in *. assert (Q : ((L + 7) / 8 = q)%nat).
+      { symmetry. apply (Nat.div_unique (L + 7) 8 q 7); lia. }
+      rewrite Q. simpl ((8 - 0) mod 8)%nat. lia.
+    - assert (Q : ((L + 7) / 8 = q + 1)%nat).
+      { symmetry. apply (Nat.div_unique (L + 7) 8 (q + 1) (r - 1)); lia. }
+      rewrite Q. rewrite (Nat.mod_small (8 - r) 8) by lia. lia.
+  Qed.
+
+  (* wotsChecksum = message digits ++ exactly len2 digits whose base-w value is the
+     checksum  sum_i (w - 1 - msg_i): the shift, toByte and base_2^b steps lose nothing *)
+  Theorem wotsChecksum_value : (1 <= p_lgw P <= 25)%nat -> (p_len2 P * p_lgw P <= 32)%nat -> forall msg,
+    exists cs, wotsChecksum P msg = base2b msg (p_lgw P) (p_len1 P) ++ cs
+      /\ length cs = p_len2 P
+      /\ Forall (fun d => d < 2 ^ N.of_nat (p_lgw P)) cs
+      /\ digits_val (p_lgw P) cs = csum_spec (base2b msg (p_lgw P) (p_len1 P)).
+  Proof.
+    intros Hl H32 msg. unfold wotsChecksum.
+    set (msgb := base2b msg (p_lgw P) (p_len1 P)).
+    set (L := (p_len2 P * p_lgw P)%nat) in *.
+    destruct (pad_shift L) as [Esh HL]. set (nb := ((L + 7) / 8)%nat) in *.
+    set (sh := ((8 - L mod 8) mod 8)%nat) in *.
+    eexists. split; [reflexivity|]. split; [apply base2b_length|]. split; [apply base2b_lt|].
+    (* the checksum does not wrap and is below 2^L *)
+    assert (Hw1 : (1 <= p_w P)%nat) by (unfold p_w; apply Nat.neq_0_lt_0, Nat.pow_nonzero; lia).
+    assert (Hdig : Forall (fun d => d <= N.of_nat (p_w P) - 1) msgb).
+    { pose proof (base2b_lt msg (p_lgw P) (p_len1 P)) as F. fold msgb in F.
+      eapply Forall_impl; [|exact F]. cbv beta. intros d Hd. rewrite p_w_N.
+      assert (0 < 2 ^ N.of_nat (p_lgw P)) by (apply N.neq_0_lt_0, N.pow_nonzero; lia). lia. }
+    assert (Hmax : N.of_nat (length msgb) * (N.of_nat (p_w P) - 1) < 2 ^ N.of_nat L).
+    { unfold msgb. rewrite base2b_length. pose proof (len2_enough ltac:(lia)) as E. fold L in E.
+      assert (E' : N.of_nat (p_len1 P * (p_w P - 1)) < N.of_nat (2 ^ L)) by lia.
+      rewrite Nat2N.inj_mul, Nat2N.inj_sub, Nat2N.inj_pow in E'. exact E'. }
+    assert (HL32 : 2 ^ N.of_nat L <= 2 ^ 32) by (apply N.pow_le_mono_r; lia).
+    destruct (csum_fold_spec msgb 0 Hdig Hw1 ltac:(lia)) as [A B].
+    unfold csum_of. rewrite A. fold (csum_spec msgb) in *. rewrite N.add_0_l in B.
+    set (c := csum_spec msgb) in *.
+    assert (Hc : c < 2 ^ N.of_nat L) by lia.
+    (* shifted checksum: exact, below 2^(8 nb) <= 2^32 *)
+    assert (E8 : (8 * nb = L + sh)%nat) by lia.
+    assert (Hpow : 2 ^ N.of_nat (8 * nb) = 2 ^ N.of_nat L * 2 ^ N.of_nat sh)
+      by (rewrite E8, Nat2N.inj_add, N.pow_add_r; reflexivity).
+    assert (Hnb : (8 * nb <= 32)%nat).
+    { unfold nb. pose proof (Nat.div_mod (L + 7) 8 ltac:(lia)). pose proof (Nat.mod_upper_bound (L + 7) 8 ltac:(lia)). lia. }
+    assert (Hsh0 : 0 < 2 ^ N.of_nat sh) by (apply N.neq_0_lt_0, N.pow_nonzero; lia).
+    assert (Hcs : c * 2 ^ N.of_nat sh < 2 ^ N.of_nat (8 * nb)) by (rewrite Hpow; nia).
+    assert (H832 : 2 ^ N.of_nat (8 * nb) <= 2 ^ 32) by (apply N.pow_le_mono_r; lia).
+    assert (Eu : u32 (N.shiftl c (N.of_nat sh)) = c * 2 ^ N.of_nat sh).
+    { rewrite N.shiftl_mul_pow2. unfold u32. change 4294967296 with (2 ^ 32). apply N.mod_small. lia. }
+    rewrite Eu.
+    destruct (base2b_value (toByte (c * 2 ^ N.of_nat sh) nb) (p_lgw P) (p_len2 P)) as [V _].
+    { apply be_bytes_wf. } { lia. } { unfold toByte. rewrite be_bytes_length. fold L. lia. }
+    rewrite V. unfold toByte at 1 2. rewrite be_bytes_length, be_val_be_bytes.
+    fold L. replace (8 * nb - L)%nat with sh by lia.
+    assert (E1 : u32 (c * 2 ^ N.of_nat sh) = c * 2 ^ N.of_nat sh).
+    { unfold u32. change 4294967296 with (2 ^ 32). apply N.mod_small. lia. }
+    rewrite E1. rewrite pw_256 by idtac. unfold pw. rewrite N.mod_small by exact Hcs.
+    apply N.div_mul. lia.
+  Qed.
+End CHECKSUM.
